@@ -61,6 +61,7 @@ type vHarness struct {
 	nextTid int
 	me      MultiEndpoint
 	epBuf   []string // the caller's buffer for endpoint lists (reused and overwritten: the library must copy)
+	storm   bool     // generator mode, see genOp
 }
 
 func (h *vHarness) install() {
@@ -290,6 +291,9 @@ func (h *vHarness) genOp(rng *rand.Rand) string {
 		return ids[rng.Intn(len(ids))]
 	}
 	x := rng.Intn(100)
+	if h.storm && x >= 40 && x < 80 && rng.Intn(4) != 0 {
+		x = 0 // a storm episode: long runs of availability reports with the list and the clock left alone
+	}
 	switch {
 	case x < 40:
 		return fmt.Sprintf("me avail e=%s v=%d", pickID(), rng.Intn(2))
@@ -387,6 +391,31 @@ func TestVerifME(t *testing.T) {
 		for i := 0; i < nops; i++ {
 			line := h.genOp(rng)
 			fmt.Fprintf(w, "%s => %s\n", line, h.exec(line))
+		}
+		if ep%4 == 3 {
+			// an extra episode from a generator of its own (the main sequence is as it was): a switching delay,
+			// three or more endpoints, and mostly availability reports - pending delayed switches overtaken by
+			// immediate ones
+			rng2 := rand.New(rand.NewSource(seed*7919 + int64(ep)))
+			r, d := genRD(rng2)
+			if d <= 0 {
+				d = 40
+			}
+			l := genList(rng2, false)
+			for len(l) < 3 {
+				l = append(l, vIDs[len(l)])
+			}
+			line := fmt.Sprintf("me new r=%d d=%d eps=%s", r, d, encList(l))
+			fmt.Fprintf(w, "%s => %s\n", line, h.exec(line))
+			if h.me == nil {
+				continue
+			}
+			h.storm = true
+			for i := 0; i < nops; i++ {
+				line := h.genOp(rng2)
+				fmt.Fprintf(w, "%s => %s\n", line, h.exec(line))
+			}
+			h.storm = false
 		}
 	}
 }
